@@ -1,4 +1,5 @@
 """Per-property configuration for tools/check.py."""
+import special
 
 COMMON_ASSUME = [
     "64-bit x86_64 target (u64 digits); the 32-bit digit configuration is not modelled",
@@ -16,6 +17,20 @@ PROPS = {
         "level_text": "Theorems addAssign_spec, addRef_spec, subAssign_spec, subRefVal_spec, checkedSub_spec, bigint_add_spec, bigint_sub_spec: for ALL canonical operands (any length, digit content, sign pair) the model of each code path returns exactly the canonical representation of the mathematical sum/difference, and BigUint subtraction fails exactly when a<b. The model is tied to the source by regenerated asm/block parameters (proof obligation gen_params_valid_addsub) and by a 3-way differential run on structured carry/borrow patterns.",
         "level_note": "Trusted: Lean kernel + {propext, Classical.choice, Quot.sound}; adc/sbb intrinsics and the asm block routine are modelled (chained adc/sbb on Nat digits); Vec/ownership not modelled; correspondence strength bounded by the generators.",
     },
+}
+
+PROPS["C15"] = {
+    "lean": ["NB.Props.C15"],
+    "gens": ["c15"],
+    "profiles": ["release"],
+    "special": special.c15_special,
+    "trusted": ["mini x86 semantics NB.Model.Asm (adc/sbb/inc/dec/jnz/setc/clc on 64-bit registers, two bounded memories)",
+                "tools/extract.py translation of the asm! templates into NB.Gen.AsmProg",
+                "valgrind memcheck as the observer of real memory accesses"],
+    "assumptions": COMMON_ASSUME + ["rustc honours the asm! operand constraints; real memory behaviour is observed (valgrind, exact-size heap blocks), not proved"],
+    "level_text": "placeholder",
+    "level_note": "placeholder",
+    "claimed": False,
 }
 
 NOT_CLAIMED = {}
